@@ -198,7 +198,8 @@ class Feedback:
 
         # Presentation
         if fields is not None:
-            self.fields = fields
+            # A copy: this feedback adds its own keywords, declared names and location to it
+            self.fields = dict(fields)
         else:
             self.fields = {}
         if self.constant_fields is not None:
